@@ -55,7 +55,10 @@ Trees ==
          \cup { Mk(5, <<0, 1, 2, 3, 1>>, <<V("object", 0, "none", FALSE, FALSE, ""), V("array", 0, "none", FALSE, FALSE, ""), dv, c, x>>) :
                    dv \in DynV, c \in DynChildV, x \in DynChildV }
     [] Family = "all" ->
-         { Mk(M, p, v) : p \in MyShapes(M), v \in [1..M -> AllV] }
+         \* (the root is FINAL_OUTPUT, one of two variants: enumerating it separately keeps the function set below TLC's
+         \* 10^6 element bound for M = 4)
+         { Mk(M, p, <<r>> \o rest) : p \in MyShapes(M), rest \in [1..(M - 1) -> AllV],
+                                     r \in {V("object", 0, "none", FALSE, FALSE, ""), V("object", 0, "none", FALSE, TRUE, "")} }
     [] Family = "collide" ->
          { Mk(5, <<0, 1, 2, 1, 4>>, <<V("object", 0, "none", FALSE, FALSE, ""), V("array", 0, "none", FALSE, FALSE, ""), x, o, y>>) :
              x \in FieldV, y \in FieldV, o \in {V("object", 1, "none", FALSE, FALSE, ""), V("object", 3, "none", FALSE, FALSE, "")} }
